@@ -1945,3 +1945,128 @@ def run_c19(ctx):
 
 
 REGISTRY["C19"] = dict(module="Properties_C19", run=run_c19)
+
+
+# ------------------------------------------------------------------------------------------
+# C20: string / stream / file
+
+C20_TOKENS = [b"name_abc-def*", b"123456789", b"-9223372036854775807L", b"0xDEADBEEF", b"0x1234567890ABCDEFL", b"3.14159e-10",
+              b"\"a string with \\n \\x41 escapes \\\" and \\\\ \"", b"true", b"FaLsE", b"# a comment to end of line\n",
+              b"// another comment\n", b"/* a block\n comment */", b"\"adjacent\" \"strings\"", b"( 1, 2.5, \"x\", [ 1, 2 ] )",
+              b"{ inner = 5; }", b"=", b";"]
+
+
+def c20_texts(rng, n, window):
+    texts = []
+    for i in range(n):
+        B = rng.choice([8192, 8192, 16384, 16384, 24576, 32768])
+        tok = C20_TOKENS[i % len(C20_TOKENS)]
+        off = rng.randint(-window, window)
+        # filler: settings and comments up to just before the boundary
+        parts = []
+        size = 0
+        j = 0
+        target = B - off - len(tok) // 2
+        while size < target - 40:
+            p = rng.choice([b"s%d = %d;\n" % (j, j * 7), b"# %s\n" % (b"c" * rng.randint(0, 30)), b"t%d = \"%s\";\n" % (j, b"v" * rng.randint(0, 20)),
+                            b"u%d = [ 1, 2, 3 ];\n" % j])
+            parts.append(p)
+            size += len(p)
+            j += 1
+        pad = target - size - len(b"zz = ")
+        parts.append(b" " * max(0, pad))
+        if tok in (b"=", b";"):
+            parts.append(b"zz " + tok + b" 1;\n" if tok == b"=" else b"zz = 1 " + tok + b"\n")
+        elif tok.startswith((b"#", b"//", b"/*")):
+            parts.append(tok + b"zz = 1;\n")
+        else:
+            parts.append(b"zz = " + tok + b";\n")
+        parts.append(b"after = 1;\n" * rng.choice([1, 50, 700]))
+        t = b"".join(parts)
+        r = rng.random()
+        if r < 0.15:
+            t = t.replace(b"after = 1;\nafter", b"after = 1;\nafter = ;\nafter", 1) if b"after = 1;\nafter" in t else t + b"x = ;"
+        texts.append(t)
+    return texts
+
+
+def c20_oracle(script, rec):
+    bad = died(script, rec)
+    al = align(script, rec["impl"])
+    results = []
+    cur = None
+    for op, out in al:
+        f = op.split(" ")
+        if f[0] in ("reads", "readst", "readck", "readf"):
+            cur = [f[0], out[0] if out else None, None]
+            if any(l in ("L FDLEAK", "L STREAMBAD") for l in out):
+                bad.append("%s: %s" % (f[0], [l for l in out if l.startswith("L ")]))
+        elif op == "dump" and cur:
+            root, attrs, err, s = parse_dump(out)
+            sig = tree_sig(root, with_pos=False) if root else None
+            lines = tuple(sorted((n.path, n.line) for n in ([] if root is None else flatten(root))))
+            e = (err[0], err[1], err[3]) if err else None        # type, text, line (file name differs by design)
+            results.append((cur[0], cur[1], sig, lines, e))
+            cur = None
+    if results:
+        ref = results[0]
+        for r in results[1:]:
+            if r[1:] != ref[1:]:
+                what = "return value" if r[1] != ref[1] else ("settings" if r[2] != ref[2] else ("source lines" if r[3] != ref[3] else "error text/line"))
+                bad.append("%s and %s of the same bytes differ in %s: %s vs %s" % (
+                    ref[0], r[0], what, (ref[1], ref[4]), (r[1], r[4])))
+    return bad
+
+
+def flatten(n):
+    res = [n]
+    for k in n.kids:
+        res += flatten(k)
+    return res
+
+
+def run_c20(ctx):
+    res = Result()
+    rc = replay_cases(ctx)
+    if rc is not None:
+        cases = rc
+    else:
+        texts = c20_texts(ctx.rng, 60 if ctx.tier == "quick" else 1500, 12 if ctx.tier == "quick" else 64)
+        # include directive followed by more than one read block of own text
+        big_tail = b"".join(b"k%d = %d;\n" % (i, i) for i in range(1500))
+        texts.append(b"first = 1;\n@include \"c20inc.cfg\"\n" + big_tail)
+        texts.append(b"@include \"c20inc.cfg\"\n" + big_tail + b"bad = ;\n")
+        cases = []
+        for t in texts:
+            body = ["init", "fs put %s %s" % (hx(b"c20inc.cfg"), hx(b"inc = 7;\n")), "fs put %s %s" % (hx(b"c20.cfg"), hx(t))]
+            for entry in ("reads %s" % hx(t), "readst %s" % hx(t), "readck 1,2,4095,4096,8191,8192,8193,17 %s" % hx(t),
+                          "readck 8193 %s" % hx(t), "readf %s" % hx(b"c20.cfg")):
+                body += [entry, "dump"]
+            cases.append("\n".join(body) + "\n")
+        res.distribution["texts"] = len(texts)
+        res.distribution["sizes"] = sorted(set(len(t) // 1024 for t in texts))
+    res.rule = ("NUL-free texts whose size puts each token kind (name, every number form, string with escapes, booleans, the "
+                "three comment styles, adjacent strings, aggregates, punctuation) at every offset in a +-12 (quick) / +-64 "
+                "(thorough) byte window around the 8/16/24/32 KiB positions, valid and with a late syntax error, plus an "
+                "@include followed by more than one read block of the including text; each read through config_read_string, "
+                "config_read on fmemopen, on cookie streams delivering 1,2,4095,...,8193-byte pieces, and config_read_file; "
+                "return value, settings, source lines, error text and line compared pairwise and with the model")
+    res.distinct = len(set(cases))
+    res.samples = [cases[0][:300]] if cases else []
+
+    def keep(l):
+        if l.startswith("T "):
+            f = l.split(" ")
+            return " ".join(f[:8])          # without the file column
+        if l.startswith("E "):
+            f = l.split(" ")
+            return " ".join([f[0], f[1], f[2], f[4]])
+        if l.startswith("L open") or l.startswith("L close"):
+            return None
+        return l
+    correspond(ctx, res, cases, line_filter=keep, oracle=c20_oracle,
+               known=lambda s, r, o: match_known("C20", s, r, o), per_proc=2)
+    return res
+
+
+REGISTRY["C20"] = dict(module="Properties_C20", run=run_c20)
